@@ -62,12 +62,16 @@ where
             )
             .await?; // cancel safe
 
+            // Only the first transfer of a delivery identifies it; a delivery-tag on a
+            // continuation transfer (including the last one) would make the session
+            // assign a new delivery-id in the middle of the delivery
+            transfer.delivery_tag = None;
+            transfer.message_format = None;
+            transfer.settled = None;
+
             // Send the transfers in the middle
             while payload.len() > self.max_message_size as usize {
                 let partial = payload.split_to(self.max_message_size as usize);
-                transfer.delivery_tag = None;
-                transfer.message_format = None;
-                transfer.settled = None;
                 send_transfer(
                     writer,
                     input_handle.clone(),
